@@ -8,6 +8,8 @@ Structural clauses decided ("re-initialising a system does not change the model 
                                 persisted once
  R2 history state               tracking state that a query method updates (Revolute.n_full_rotations, previous_quadrant) is
                                 not unconditionally re-initialised by assembler_callback
+ R6 tracking-state atomicity    fields that one query method updates together are re-initialised together by __init__ /
+                                assembler_callback / reset (never one without the other)
  R3 set_new_initial_state       writes q0 / u0 of every contribution having nq / nu from its own my_qDOF / my_uDOF slice,
                                 takes over t0, and re-assembles; deepcopy copies the whole system
  R4 contact data                contact assembler_callbacks recompute only DOF bookkeeping, glue lambdas and quantities
@@ -50,6 +52,7 @@ def run(ctx):
     rep.rule("C24.R2", "query-updated history state is not reset by re-assembly", 1)
     rep.rule("C24.R3", "set_new_initial_state / deepcopy", 5)
     rep.rule("C24.R4", "contact re-assembly", 2)
+    rep.rule("C24.R6", "fields of one tracking state are re-initialised together", 2)
     rep.rule("C24.R5", "registration markers (nq, nu, nla_*) are constructor data", 12)
     model = ctx.model
     # ---- R1
@@ -129,6 +132,34 @@ def run(ctx):
                 else:
                     rep.bad("C24.R2", C, s.node, f"`self.{a}` is history state updated by a query method, but assembler_callback re-initialises it unconditionally: "
                             f"re-assembling at a restart (set_new_initial_state) forgets the accumulated value", f"{c2.rel}:{s.node.lineno}")
+        # ---- R6 tracking fields that one query updates together are (re)initialised together
+        groups = {}
+        for mname, m in c2.methods.items():
+            if mname in ("__init__", "assembler_callback", "reset", "step_callback") or "q" not in [a.arg for a in m.args.args]:
+                continue
+            g = set()
+            for n in walk_no_nested(m):
+                tg = n.targets if isinstance(n, ast.Assign) else ([n.target] if isinstance(n, ast.AugAssign) else [])
+                for t in tg:
+                    if isinstance(t, ast.Attribute) and dotted(t.value) == "self":
+                        g.add(t.attr)
+            if len(g) >= 2:
+                groups[mname] = g
+        for qm, g in sorted(groups.items()):
+            for mname in ("__init__", "assembler_callback", "reset"):
+                m = c2.methods.get(mname)
+                if m is None:
+                    continue
+                written = {t.attr for n in walk_no_nested(m) for t in (n.targets if isinstance(n, ast.Assign) else []) if isinstance(t, ast.Attribute) and dotted(t.value) == "self"} & g
+                C = f"{c2.rel}:{c2.qual}.{mname}"
+                if not written:
+                    continue
+                if written == g:
+                    rep.ok("C24.R6", C, f"tracking fields {sorted(g)} of `{qm}` are (re)initialised together")
+                else:
+                    st = next(n for n in walk_no_nested(m) if isinstance(n, ast.Assign) and any(isinstance(t, ast.Attribute) and t.attr in written for t in n.targets))
+                    rep.bad("C24.R6", C, st, f"`{mname}` re-initialises {sorted(written)} but not {sorted(g - written)}, although `{qm}` updates them as one tracking state: after "
+                            f"re-assembly the fields disagree (a quadrant reset with a kept turn counter counts a spurious transition)", f"{c2.rel}:{st.lineno}")
     # ---- R5 (shared with C14.R7a): a restart re-runs assemble; markers created by the first assembly change the layout
     from .. import sysmodel
     sm = sysmodel.SystemModel(ctx)
@@ -224,5 +255,11 @@ MUTANTS = [
          old="        self._nu = len(self.uDOF)\n\n        self.r_OP = lambda t, q: self.subsystem.r_OP(",
          new="        self._nu = len(self.uDOF)\n        self.r = self.r + 0.0\n\n        self.r_OP = lambda t, q: self.subsystem.r_OP(", expect="C24.R4"),
     dict(id="c24-m5", what="System.deepcopy becomes a shallow copy", file=SYS, old="        return deepcopy(self)", new="        from copy import copy\n        return copy(self)", expect="C24.R3"),
+]
+MUTANTS += [
+    dict(id="c24-r6-seed", canary=True, what="[seeded by sub-agent] Revolute: tracking fields initialised in __init__, assembler_callback resets only previous_quadrant", file="cardillo/constraints/revolute.py",
+         old="x", new="y", expect="C24.R6",
+         edits=[("cardillo/constraints/revolute.py", "        self.angle_dot = self.l_dot\n\n        super().__init__(", "        self.angle_dot = self.l_dot\n\n        self.n_full_rotations = 0\n        self.previous_quadrant = 1\n\n        super().__init__("),
+                ("cardillo/constraints/revolute.py", "    def assembler_callback(self):\n        self.n_full_rotations = 0\n        self.previous_quadrant = 1\n", "    def assembler_callback(self):\n        self.previous_quadrant = 1\n")]),
 ]
 NEUTRAL = []
